@@ -153,13 +153,13 @@ class EffectsQ:
 
 
 class ReopenQ(EffectsQ):
-    """effects mode over the reopen and drop paths (memory.rs map_mut_in / map_in with their closures, unmount): obligations R1-R5 of C05"""
+    """effects mode over the reopen and drop paths (memory.rs map_mut_in / map_in with their closures, unmount; Options::open; Arena::from): obligations R1-R7 of C05"""
     name, props = "effects_reopen_path", ["C05", "C06", "C08"]
-    module, native_flag, min_obligations = "mirsmt.reopen", "--reopen-check", 5
+    module, native_flag, min_obligations = "mirsmt.reopen", "--reopen-check", 8
     relevant = {"C06": ("R1",), "C08": ("R1",)}  # C06's crash model and C08's "reopened file" clause rest on the zeroing the real closure performs
 
     def bounds(self):
-        return ("all paths of map_mut_in / map_in with their closures and of unmount (no loops in them); reserved <= 2^20; callees outside the crate opaque "
+        return ("all paths of map_mut_in / map_in with their closures, of unmount, of Options::open and of sync/unsync Arena::from(Memory) (no loops in them); reserved <= 2^20; callees outside the crate opaque "
                 "(fresh symbolic result + effect record), Options::with_* setters = same Options value, sanity_check / write_sanity summarised "
                 "(decided by Engine K under C09), size_of::<Header>() = 24, cleanup (unwinding) paths not followed; "
                 "trusted: MAP_SHARED stores reach the file, the OS honours set_len/sync_all")
